@@ -219,6 +219,10 @@ func runLists(c *mc.Ctx, r *mc.Result) {
 		n := len(entries)
 		if n <= 3 {
 			splits = append(splits, []string{strings.Join(entries, ", ")})
+			if n >= 1 {
+				// optional whitespace is SP / HTAB (RFC 7230)
+				splits = append(splits, []string{"\t" + strings.Join(entries, "\t,\t") + "\t"})
+			}
 		}
 		for cut := 1; cut < n; cut++ {
 			if cut <= 3 && n-cut <= 3 {
